@@ -152,6 +152,7 @@ PredRet(name, t) ==
   ELSE IF name = "zero" THEN Ok(VInt(0))
   ELSE IF name = "truthy" THEN Ok(VBool(PyTruthy(t)))
   ELSE IF name = "isnum" THEN Ok(VBool(IsNum(t)))
+  ELSE IF name = "falsy" THEN Ok(VBool(~PyTruthy(t)))
   ELSE Exc("ValueError")                           \* "boom"
 
 \* ===================================================================================
